@@ -13,6 +13,7 @@ COk(r) ==
      /\ r[4] = 1 => \A i \in 1..Len(r[5]) : r[5][i][2] = Effect(cls, given, r[5][i][1])
 VOk(r) == IF r[1] = "gw" THEN r[5] = GatewayClass(r[2] = 1, r[3], r[4])
           ELSE IF r[1] = "nodeattr" THEN r[5] = NodeAttrClass(r[2] = 1, r[3], r[4])
+          ELSE IF r[1] = "gwhb" THEN r[5] = HeartbeatClass(r[2] = 1, r[3], r[4])
           ELSE r[5] = NodeClass(r[2] = 1, r[3], r[4])
 BadC == {i \in 1..Len(T.C) : ~COk(T.C[i])}
 BadV == {i \in 1..Len(T.V) : ~VOk(T.V[i])}
